@@ -8,7 +8,7 @@ import (
 
 func init() {
 	register("C05", "Decides structural necessary conditions of 'signature verification accepts exactly the valid log signatures': "+
-		"(R1) tls.VerifySignature, for every signature-algorithm code 0..255: only RSA/DSA/ECDSA can reach the accepting return, each only through its own library verifier; in each case the accepting return is unreachable when the hash cannot be computed, when the key is not of the case's key type (mismatch ⇒ error, no verifier call, no panic path through the asserted key), when the DER (r,s) does not parse, when r or s is not positive (tested before the verifier runs), or when the library verifier rejects; trailing bytes after the DER value do not block acceptance; every other return carries a non-nil error; "+
+		"(R1) tls.VerifySignature, for every pair (signature-algorithm code 0..255, dynamic type of the key: *rsa / *dsa / *ecdsa.PublicKey / any other type incl. nil), whichever of the two the code looks at first and also when the pair is compared through a function that maps the key's type to its algorithm (summarised from that function's own type tests): only (RSA,*rsa) (DSA,*dsa) (ECDSA,*ecdsa) can reach the accepting return, each only through its own library verifier; every other pair is refused (mismatch ⇒ error, no call of the declared algorithm's verifier, no panic path through the asserted key; codes outside 1..3 reach no verifier at all); for the three accepted pairs the accepting return is unreachable when the hash cannot be computed, when the DER (r,s) does not parse, when r or s is not positive (tested before the verifier runs), or when the library verifier rejects; trailing bytes after the DER value do not block acceptance; every other return carries a non-nil error; "+
 		"(R2) the verifier's operands are the hash of (declared hash algorithm, the data argument), the asserted key and the carried signature bytes / the (r,s) decoded from them; generateHash maps codes 1..6 to MD5,SHA1,SHA224,SHA256,SHA384,SHA512 and refuses every other code 0..255, hashing exactly the data; "+
 		"(R3) NewSignatureVerifier succeeds exactly for (RSA ∧ (≥2048 bits ∨ opt-in)) ∨ (ECDSA ∧ (P-256 ∨ opt-in)), never for another key type, and stores the key it vetted; "+
 		"(R4) VerifySCTSignature / VerifySTHSignature return the serializer's error or the verdict of tls.VerifySignature over (verifier's key, serialized input of the arguments, the object's own signature) and nothing else; "+
@@ -51,139 +51,7 @@ func runC05(r *Run) {
 	})
 }
 
-// ---- R1 / R2: tls.VerifySignature ---------------------------------------------
-
-func c05VerifySignature(r *Run) {
-	r.Rule("C05.R1")
-	fn := r.Fn("tls.VerifySignature")
-	if fn == nil {
-		return
-	}
-	// every return is the nil constant (accept), a constructed error, or a guarded non-nil error
-	r.VerdictShape(fn, "VerifySignature:shape", "-", func(ret *ssa.Return) (bool, string) { return true, "accepting return (gated below)" })
-	accept := nilErrReturns(fn)
-	r.Floor("accepting returns of VerifySignature", len(accept), 1)
-	verifierCalls := map[int64][]ssa.Instruction{}
-	var allVerifiers []ssa.Instruction
-	for k, v := range c05Verifiers {
-		verifierCalls[k] = asInstrs(CallsTo(fn, v))
-		allVerifiers = append(allVerifiers, verifierCalls[k]...)
-	}
-	scrut := "p2.Algorithm.Signature"
-	if _, n := r.D.constSigma(fn, scrut, 0); n == 0 {
-		r.Fail("VerifySignature:scrutinee", r.FnPos(fn), "undecided: no comparison of sig.Algorithm.Signature with a constant")
-		return
-	}
-	hashErr := nilAtom("tls.generateHash(*)#2")
-	// all 256 codes
-	badCodes := 0
-	for x := int64(0); x < 256; x++ {
-		sx, _ := r.D.constSigma(fn, scrut, x)
-		reach := r.D.Walk(fn, sx, nil, nil)
-		r.Valuations++
-		want, known := c05Verifiers[x]
-		if !known {
-			ok := anyReach(reach, accept) == nil
-			for _, v := range allVerifiers {
-				if reach.Has(v) {
-					ok = false
-				}
-			}
-			if !ok {
-				badCodes++
-				r.Fail(fmt.Sprintf("VerifySignature:alg=%d-refused", x), r.FnPos(fn), fmt.Sprintf("signature algorithm code %d (not RSA/DSA/ECDSA) can reach an accepting return or a verifier", x))
-			}
-			continue
-		}
-		alg := c05AlgName[x]
-		key := "VerifySignature:" + alg
-		// exactly this case's verifier
-		others := false
-		for k, cs := range verifierCalls {
-			for _, c := range cs {
-				if k != x && reach.Has(c) {
-					others = true
-				}
-			}
-		}
-		own := verifierCalls[x]
-		r.Check(key+":verifier", len(own) == 1 && reach.Has(own[0]) && !others, r.FnPos(fn), fmt.Sprintf("code %d reaches exactly %s (found %d call sites, foreign verifier reachable=%v)", x, want, len(own), others))
-		r.Check(key+":accepts-valid", anyReach(reach, accept) != nil, r.FnPos(fn), "positive control: the accepting return is reachable for "+alg)
-		if len(own) != 1 {
-			continue
-		}
-		kt := c05KeyType[x]
-		r.Gate(fn, key+":hash-error", sx, reach, hashErr, "non", accept, own, "hash cannot be computed")
-		r.Gate(fn, key+":key-type-mismatch", sx, reach, boolAtom("p0.("+kt+")#1"), "F", accept, own, "key is not a "+kt)
-		if x == 1 {
-			r.Gate(fn, key+":verifier-rejects", sx, reach, nilAtom(want+"(*)"), "non", accept, nil, "rsa.VerifyPKCS1v15 returns an error")
-			continue
-		}
-		r.Gate(fn, key+":verifier-rejects", sx, reach, boolAtom(want+"(*)"), "F", accept, nil, want+" returns false")
-		r.Gate(fn, key+":der-unparsable", sx, reach, nilAtom("asn1.Unmarshal(p2.Signature, *)#1"), "non", accept, own, "DER (r,s) does not parse")
-		r.Gate(fn, key+":r-not-positive", sx, reach, ordAtomR("(*big.Int).Sign(*.R)", "0"), "<,=", accept, own, "r ≤ 0")
-		r.Gate(fn, key+":s-not-positive", sx, reach, ordAtomR("(*big.Int).Sign(*.S)", "0"), "<,=", accept, own, "s ≤ 0")
-		// trailing bytes after the DER value are ignored (only if the code looks at them at all)
-		if s, _, err := r.bindSets(fn, sx, reach, AtomSet{ordAtomR("len(asn1.Unmarshal(*)#0)", "0"), ">"}); err == nil {
-			r.Valuations++
-			r.Check(key+":trailing-bytes-ignored", anyReach(r.D.Walk(fn, s, nil, nil), accept) != nil, r.FnPos(fn), "bytes after a complete DER (r,s) do not block acceptance")
-		} else {
-			r.Pass(key+":trailing-bytes-ignored", r.FnPos(fn), "the remainder returned by asn1.Unmarshal is not tested")
-		}
-	}
-	r.Check("VerifySignature:other-253-codes-refused", badCodes == 0, r.FnPos(fn), fmt.Sprintf("%d of the 253 codes outside {1,2,3} can reach acceptance or a verifier", badCodes))
-
-	// ---- R2 operands
-	r.Rule("C05.R2")
-	if c := r.OneCall(fn, "VerifySignature:generateHash", "tls.generateHash"); c != nil {
-		r.ExpectArg(c, "VerifySignature:hash.algo", 0, "p2.Algorithm.Hash")
-		r.ExpectArg(c, "VerifySignature:hash.data", 1, "p1")
-	}
-	for x := int64(1); x <= 3; x++ {
-		cs := CallsTo(fn, c05Verifiers[x])
-		if len(cs) != 1 {
-			continue
-		}
-		c := cs[0]
-		key := "VerifySignature:" + c05AlgName[x] + ":operand"
-		r.ExpectArg(c, key+".key", 0, "p0.("+c05KeyType[x]+")#0")
-		if x == 1 {
-			r.ExpectArg(c, key+".hashType", 1, "tls.generateHash(*)#1")
-			r.ExpectArg(c, key+".hash", 2, "tls.generateHash(*)#0")
-			r.ExpectArg(c, key+".sig", 3, "p2.Signature")
-			continue
-		}
-		r.ExpectArg(c, key+".hash", 1, "tls.generateHash(*)#0")
-		// (r,s) are the fields of the struct decoded from sig.Signature on this path
-		sx, _ := r.D.constSigma(fn, "p2.Algorithm.Signature", x)
-		reach := r.D.Walk(fn, sx, nil, nil)
-		var um []ssa.CallInstruction
-		for _, u := range CallsTo(fn, "asn1.Unmarshal") {
-			if reach.Has(u) {
-				um = append(um, u)
-			}
-		}
-		if len(um) != 1 {
-			r.Fail(key+".rs", r.Where(c), fmt.Sprintf("expected one asn1.Unmarshal on the %s path, found %d", c05AlgName[x], len(um)))
-			continue
-		}
-		r.ExpectArg(um[0], key+".der", 0, "p2.Signature")
-		a := baseAlloc(CallArgs(um[0])[1])
-		if a == nil {
-			r.Fail(key+".rs", r.Where(um[0]), "undecided: decode target of asn1.Unmarshal is not a local")
-			continue
-		}
-		name := r.D.allocName(a)
-		r.ExpectArg(c, key+".r", 2, name+".R")
-		r.ExpectArg(c, key+".s", 3, name+".S")
-		// and the positivity tests look at that same struct
-		for _, sc := range CallsTo(fn, "(*big.Int).Sign") {
-			if reach.Has(sc) {
-				r.ExpectArg(sc, key+".positivity-subject", 0, name+".R || "+name+".S")
-			}
-		}
-	}
-}
+// ---- R1 / R2: tls.VerifySignature — decided on the product (algorithm code × key type), see rules_t6c05.go
 
 func c05GenerateHash(r *Run) {
 	r.Rule("C05.R2")
